@@ -58,28 +58,6 @@ def install(reg, src):
             return SpecFn(None, "hessian matrix", meta={"getitem": lambda ip3, key: at(*key), "shape": (n, n)})
         c.returns(lambda cc: SpecFn(call, "compiled hessian"))
 
-    # ---- compile_jacobian: J(x)[i][j] = d den(e_i) / dV_j at regular points (only the single-row use of the solver)
-    @reg.contract(f"{AD}:compile_jacobian", props=["C03", "C09", "C10"],
-                  bounded="fast paths 0/1/2 and the general double loop are exercised by the bounded stand-in; rows come from "
-                          "jacobian_row / gradient (C02/C03 contracts)")
-    def _(c):
-        sp = Spec(c.ip)
-        ip = c.ip
-        es = c.arg("exprs")
-        vs = varlist(c)
-        m = index_map_of_varlist(ip, vs)
-        IDX = m.idx
-        n = ip.models.len_term(vs.n)
-        if not isinstance(es, PList) or len(es.items) != 1:
-            raise Unsupported("compile_jacobian contract is stated for a single expression (the solver's use)")
-        e = es.items[0]
-
-        def call(ip2, x):
-            sp2 = Spec(ip2)
-            E = env_of(ip2, x, IDX)
-            row = SSeq(n, lambda k: SReal(sp2.dv(e, FN(vs.get(k).ref), E, sp2.PV), "npfloat"), "ndarray", "jacobian-row")
-            return SpecFn(None, "jacobian 1xn", meta={"methods": {"flatten": lambda ip3: row}, "row": row})
-        c.returns(lambda cc: SpecFn(call, "compiled jacobian"))
     install_c19(reg, src)
 
 
